@@ -26,6 +26,22 @@ class CallMixin:
             r = self.spec_call(fn.id, node, st)
             if r is not None:
                 return r
+        rc = getattr(self.contract, "record_calls", None)
+        if rc and not self.spec_mode:
+            key = ast.unparse(fn)
+            if key in rc:
+                # ghost event log: the call is recorded (arguments boxed into a tuple) and otherwise opaque
+                args, kwargs = self.eval_args(node, st)
+                items = [box(a, st) for a in args if not isinstance(a, tuple) and a.kind != "pyobj"]
+                for k_ in sorted(kwargs):
+                    if kwargs[k_].kind != "pyobj":
+                        items.append(box(kwargs[k_], st))
+                ev = box(Sym("seq", Q.Literal(st, items), Spec("seq", VAL, True)), st)
+                g = dict(st.notes.get("ghost_appends") or {})
+                cur = g.get(key) or Sym("seq", Q.Empty(), Spec("seq", VAL))
+                g[key] = Sym("seq", Q.Concat(st, cur.t, Q.Unit(st, ev)), Spec("seq", VAL))
+                st.notes["ghost_appends"] = g
+                return S_val(self.fresh_term(st, "recorded", V))
         lc = getattr(self.contract, "local_contracts", None)
         if lc:
             key = ast.unparse(fn)
